@@ -101,6 +101,15 @@ Definition get_targets (s : state) : list (string * tval) :=
 Definition map_get {A : Type} (k : string) (m : list (string * option A)) : option A :=
   match assoc k m with Some v => v | None => None end.
 
+(** ** The one open defect this model mirrors
+
+    DEFECT C17_1 (fixes/C17_1_load_clone.diff).  [false] = target.go as it is
+    now; once the patch is committed this constant becomes [true] -- the only
+    edit needed.  The three places it reaches are the [_gen] functions below,
+    each marked.  Every theorem is stated for an arbitrary value of the flag
+    (or says which value it needs), so none of them changes with the switch. *)
+Definition patched_C17_1 : bool := false.
+
 (** ** Validate
 
     Error classes: 1 empty target name, 2 nil target message, 3 no address,
@@ -108,7 +117,7 @@ Definition map_get {A : Type} (k : string) (m : list (string * option A)) : opti
     first offending target in iteration order decides the class; whether an
     error is returned at all does not depend on the order
     (TargetCfgProofs.validate_spec). *)
-Fixpoint validate_targets (reqs : list (string * rval)) (ts : list (string * tval))
+Fixpoint validate_targets (p : bool) (reqs : list (string * rval)) (ts : list (string * tval))
   : option N :=
   match ts with
   | [] => None
@@ -123,14 +132,21 @@ Fixpoint validate_targets (reqs : list (string * rval)) (ts : list (string * tva
                    if String.eqb (t_request t) "" then Some 4%N
                    else match assoc (t_request t) reqs with
                         | None => Some 5%N
-                        | Some _ => validate_targets reqs ts'
+                        | Some None =>
+                            (* DEFECT C17_1: now [_, ok := config.Request[..]; !ok]
+                               lets a nil request pointer through ([p = false]);
+                               patched: [config.Request[..] == nil] is an error *)
+                            if p then Some 5%N else validate_targets p reqs ts'
+                        | Some (Some _) => validate_targets p reqs ts'
                         end
                end
            end
   end.
 
-Definition validate (c : config) : option N :=
-  validate_targets (c_request c) (c_target c).
+Definition validate_gen (p : bool) (c : config) : option N :=
+  validate_targets p (c_request c) (c_target c).
+
+Definition validate : config -> option N := validate_gen patched_C17_1.
 
 (** ** checkRevision: [true] = no error *)
 Definition check_revision (s : state) (cf : config) : bool :=
@@ -190,33 +206,6 @@ Definition handle_diffs (s : state) (cf : config) : list call :=
   let r := fold_left (diff_old rc (c_request cf)) (get_targets s) (c_target cf, []) in
   snd r ++ map (add_left (c_request cf)) (fst r).
 
-(** ** Load
-
-    Result: new state, error class ([None] = nil error; 1 nil configuration,
-    2 invalid, 3 revision not strictly greater) and the handler calls made. *)
-Definition load (s : state) (arg : option config) : state * option N * list call :=
-  match arg with
-  | None => (s, Some 1%N, [])
-  | Some cf =>
-      match validate cf with
-      | Some _ => (s, Some 2%N, [])
-      | None =>
-          if check_revision s cf
-          then (Some cf, None, handle_diffs s cf)
-          else (s, Some 3%N, [])
-      end
-  end.
-
-(** NewConfig: nil configuration.  NewConfigWithBase: the base is validated
-    (when non-nil) and becomes the initial state without any handler call. *)
-Definition new_config : state := None.
-
-Definition new_config_with_base (base : option config) : outcome state :=
-  match base with
-  | None => Ok None
-  | Some c => match validate c with Some _ => Err 2%N | None => Ok (Some c) end
-  end.
-
 (** Current: proto.Clone of the state.  Clone copies a map entry whose value is a
     nil message pointer as an *empty* message (mergeMap allocates a new message
     and merges the invalid one into it); a nil configuration stays nil. *)
@@ -234,62 +223,96 @@ Definition clone_config (c : config) : config :=
 Definition current (s : state) : option config :=
   match s with Some c => Some (clone_config c) | None => None end.
 
+(** what Load / NewConfigWithBase keep of the message they are handed *)
+Definition store_gen (p : bool) (cf : config) : config :=
+  (* DEFECT C17_1: now [c.configuration = config], the caller's own message
+     ([p = false]); patched: [proto.Clone(config)] *)
+  if p then clone_config cf else cf.
+
+(** ** Load
+
+    Result: new state, error class ([None] = nil error; 1 nil configuration,
+    2 invalid, 3 revision not strictly greater) and the handler calls made. *)
+Definition load_gen (p : bool) (s : state) (arg : option config)
+  : state * option N * list call :=
+  match arg with
+  | None => (s, Some 1%N, [])
+  | Some cf =>
+      match validate_gen p cf with
+      | Some _ => (s, Some 2%N, [])
+      | None =>
+          if check_revision s cf
+          then (Some (store_gen p cf), None, handle_diffs s cf)
+          else (s, Some 3%N, [])
+      end
+  end.
+
+Definition load : state -> option config -> state * option N * list call :=
+  load_gen patched_C17_1.
+
+(** NewConfig: nil configuration.  NewConfigWithBase: the base is validated
+    (when non-nil) and becomes the initial state without any handler call. *)
+Definition new_config : state := None.
+
+Definition new_config_with_base_gen (p : bool) (base : option config) : outcome state :=
+  match base with
+  | None => Ok None
+  | Some c => match validate_gen p c with Some _ => Err 2%N | None => Ok (Some (store_gen p c)) end
+  end.
+
+Definition new_config_with_base : option config -> outcome state :=
+  new_config_with_base_gen patched_C17_1.
+
 (** ** the caller edits, in place, the message it handed to the last accepted
     Load (or to NewConfigWithBase)
 
-    [Load] stores the caller's pointer ([c.configuration = config]) and
-    [NewConfigWithBase] stores the base pointer, so such an edit is an edit of
-    [Config.configuration] itself: no validation, no revision gate, no handler
-    call.  [c'] is the content of the message after the edit. *)
+    As long as the configuration is stored by reference such an edit is an
+    edit of [Config.configuration] itself: no validation, no revision gate, no
+    handler call.  [c'] is the content of the message after the edit. *)
+Definition mutate_gen (p : bool) (s : state) (c' : config) : state :=
+  (* DEFECT C17_1: now the stored message is the caller's ([p = false]);
+     patched: the state is a private copy and the edit does not reach it *)
+  if p then s
+  else match s with Some _ => Some c' | None => None end.
 
-(* DEFECT C17_1: [true] mirrors target.go as it is now (the configuration is
-   stored by reference).  Once fixes/C17_1_load_clone.diff is in (Load and
-   NewConfigWithBase store proto.Clone(config)) this becomes [false] and
-   [mutate] is the identity on the state. *)
-Definition stored_by_reference : bool := true.
-
-Definition mutate_gen (alias : bool) (s : state) (c' : config) : state :=
-  if alias
-  then match s with Some _ => Some c' | None => None end
-  else s.
-
-Definition mutate : state -> config -> state := mutate_gen stored_by_reference.
+Definition mutate : state -> config -> state := mutate_gen patched_C17_1.
 
 (** ** histories *)
 
-Definition load_state (s : state) (arg : option config) : state := fst (fst (load s arg)).
-Definition load_calls (s : state) (arg : option config) : list call := snd (load s arg).
-Definition load_err (s : state) (arg : option config) : option N := snd (fst (load s arg)).
+Definition load_state (p : bool) (s : state) (arg : option config) : state :=
+  fst (fst (load_gen p s arg)).
+Definition load_calls (p : bool) (s : state) (arg : option config) : list call :=
+  snd (load_gen p s arg).
+Definition load_err (p : bool) (s : state) (arg : option config) : option N :=
+  snd (fst (load_gen p s arg)).
 
 (** what a client of one [Config] can do: load, or edit the message it loaded last *)
 Inductive hop :=
 | HLoad (arg : option config)
 | HMutate (c' : config).
 
-Definition hop_state (alias : bool) (s : state) (h : hop) : state :=
+Definition hop_state (p : bool) (s : state) (h : hop) : state :=
   match h with
-  | HLoad a => load_state s a
-  | HMutate c' => mutate_gen alias s c'
+  | HLoad a => load_state p s a
+  | HMutate c' => mutate_gen p s c'
   end.
 
-Definition hop_calls (s : state) (h : hop) : list call :=
+Definition hop_calls (p : bool) (s : state) (h : hop) : list call :=
   match h with
-  | HLoad a => load_calls s a
+  | HLoad a => load_calls p s a
   | HMutate _ => []
   end.
 
 (** state after a history, and the handler calls of each step *)
-Fixpoint run_gen (alias : bool) (s : state) (hs : list hop) : state * list (list call) :=
+Fixpoint run_gen (p : bool) (s : state) (hs : list hop) : state * list (list call) :=
   match hs with
   | [] => (s, [])
   | h :: hs' =>
-      let r := run_gen alias (hop_state alias s h) hs' in
-      (fst r, hop_calls s h :: snd r)
+      let r := run_gen p (hop_state p s h) hs' in
+      (fst r, hop_calls p s h :: snd r)
   end.
 
-(** histories of loads only *)
-Definition run (s : state) (ls : list (option config)) : state * list (list call) :=
-  run_gen false s (map HLoad ls).
+Definition is_load (h : hop) : bool := match h with HLoad _ => true | HMutate _ => false end.
 
 (** ** what a subscriber to the handler knows
 
